@@ -152,17 +152,31 @@ func checkC02(c c02Case) *core.Failure {
 	if !hugeSerial && (!res.OK() || res.Generated != len(c.W.Ents)) {
 		return core.Failf("C02/run-failed", "%s\n%v", res.String(), c.W.Texts())
 	}
-	for i := range c.W.Ents {
-		e := &c.W.Ents[i]
-		if hugeSerial && (d.Files[core.PemPath(e.File)] == nil || core.ParseArtifact(d.Files[core.PemPath(e.File)].Data).CertDER == nil) {
-			continue // a serial beyond int64 may be refused; if a certificate is written it must obey every rule
+	for pass := 0; pass < 2; pass++ {
+		if pass == 1 {
+			// the certificates that replace these obey the same rules
+			time.Local = time.FixedZone("verif", c.TZ)
+			res = core.Run(d, core.FlagAll)
+			time.Local = oldLocal
+			if res.Panic != "" {
+				return core.Failf("C02/panic", "gopki panicked: %s", res.Panic)
+			}
+			if !hugeSerial && !res.OK() {
+				return core.Failf("C02/rerun-failed", "%s\n%v", res.String(), c.W.Texts())
+			}
 		}
-		dec, err := readEntity(d, e)
-		if err != nil || dec.Cert == nil {
-			return core.Failf("C02/not-well-formed", "%s: the certificate is not a single well-formed strict-DER X.509 structure: %v\n%s", e.EffAlias(), err, string(e.Render()))
-		}
-		if f := checkC02Cert(e, dec, c.X509Safe); f != nil {
-			return f
+		for i := range c.W.Ents {
+			e := &c.W.Ents[i]
+			if hugeSerial && (d.Files[core.PemPath(e.File)] == nil || core.ParseArtifact(d.Files[core.PemPath(e.File)].Data).CertDER == nil) {
+				continue // a serial beyond int64 may be refused; if a certificate is written it must obey every rule
+			}
+			dec, err := readEntity(d, e)
+			if err != nil || dec.Cert == nil {
+				return core.Failf("C02/not-well-formed", "%s: the certificate is not a single well-formed strict-DER X.509 structure: %v\n%s", e.EffAlias(), err, string(e.Render()))
+			}
+			if f := checkC02Cert(e, dec, c.X509Safe); f != nil {
+				return f
+			}
 		}
 	}
 	return nil
